@@ -636,7 +636,14 @@ protected:
 
     for (auto kv : e) {
       const variable_t &pivot = kv.second;
-      interval_t i = compute_residual(e, pivot) / interval_t(kv.first);
+      interval_t residual = compute_residual(e, pivot);
+      interval_t coef(kv.first);
+      interval_t i = residual / coef;
+      // pivot != k only if coef*k is exactly the residual (the
+      // division may round, e.g., 2*x != 5 excludes no value of x).
+      if (!(i * coef == residual)) {
+        continue;
+      }
       if (auto k = i.singleton()) {
         if (!add_univar_disequation(pivot, *k)) {
           // set_to_bottom() was already called
